@@ -4,7 +4,7 @@ import ast
 
 from ..report import rule
 from ..model import norm, NotConst, is_self_attr, calls_in, stores_in, ShapeError, AnchorMissing
-from ..paths import enumerate_paths, facts_at, always_leaves
+from ..paths import enumerate_paths, facts_at, always_leaves, walk_shallow as walk_shallow_
 from ..guards import Evaluator
 from .common import (where, self_call, base_call, feasible, EffectSummary, attr_stores, path_nodes)
 
@@ -602,6 +602,18 @@ def r6(ctx):
                   "%s must finish the request through %s (found %s)" % (k, v, mapping.get(k)), facts={"mapping": mapping})
     ctx.check("_app_complete:map[None]", any(k.startswith("None") or k == "type(None)" for k, v in mapping.items() if v == "complete_io"), where(appc.module, f),
               "an unconfirmed request (None) must complete the block")
+    # the per-peer queue is forgotten only when it is empty and idle
+    dels = [n for n in walk_shallow_(f) if isinstance(n, ast.Delete) and "queue_by_address" in norm(n)]
+    okd = len(dels) == 1
+    if okd:
+        eva = Evaluator(prog, appc.module, appc)
+        fa = facts_at(dels[0])
+        qn = [norm(c.func.value) for c in calls_in(f) if norm(c.func).endswith(".complete_io")]
+        q = qn[0] if qn else "queue"
+        reach = [(a, b) for a in (True, False) for b in (True, False) if eva.may_hold(fa, {"%s.ioQueue.queue" % q: a, "%s.active_iocb" % q: b})]
+        okd = reach == [(False, False)]
+    ctx.check("_app_complete:queue-dropped-only-when-idle", okd, where(appc.module, f),
+              "the per-peer request queue may be discarded only when nothing is queued and nothing is active ((queued, active) combinations reaching the delete: %r): otherwise a later reply is matched against the wrong request" % (reach if dels else None,))
     # confirmation routes every response into _app_complete keyed by the peer address
     f = appc.methods.get("confirmation")
     if f is None:
